@@ -5,10 +5,29 @@
 #include <sys/uio.h>
 
 #include "message.h"
+#include "queue.h"
 
 #include "event.h"
 
 #include "stream.h"
+
+static int streamRecv(MPT_STRUCT(stream) *srm)
+{
+	int ret, flags;
+	
+	if ((ret = mpt_queue_recv(&srm->_rd)) != MPT_ERROR(MissingBuffer)
+	    || srm->_rd.data.len < srm->_rd.data.max) {
+		return ret;
+	}
+	/* decoder needs work area a full queue is unable to supply */
+	flags = mpt_stream_flags(&srm->_info);
+	if (!(flags & MPT_STREAMFLAG(ReadBuf))
+	    || (flags & MPT_STREAMFLAG(ReadMap))
+	    || !mpt_queue_prepare(&srm->_rd.data, 64)) {
+		return ret;
+	}
+	return mpt_queue_recv(&srm->_rd);
+}
 
 /*!
  * \ingroup mptStream
@@ -31,7 +50,7 @@ extern int mpt_stream_dispatch(MPT_STRUCT(stream) *srm, int (*cmd)(void *, const
 	
 	/* use existing or new message */
 	if (srm->_rd._state.data.msg < 0) {
-		if ((ret = mpt_queue_recv(&srm->_rd)) < 0) {
+		if ((ret = streamRecv(srm)) < 0) {
 			return ret;
 		}
 		if (!ret) {
@@ -54,7 +73,7 @@ extern int mpt_stream_dispatch(MPT_STRUCT(stream) *srm, int (*cmd)(void *, const
 		ret &= MPT_EVENTFLAG(Flags);
 	}
 	/* further message on queue */
-	if (mpt_queue_recv(&srm->_rd) > 0) {
+	if (streamRecv(srm) > 0) {
 		ret |= MPT_EVENTFLAG(Retry);
 	}
 	return ret;
